@@ -477,8 +477,12 @@ def check_path(spec, inst, st, res, rng, tr, seeds, angle_pins, g):
     for fi, free in enumerate(fsets):
         t0 = time.time()
         free_all = free == "ALL"
+        # optional per-free-set encoder options (additive): spec.encoder_options(inst, tr, fi, free) -> dict with any of
+        # max_terms, abstract_big, no_flips (do not derive new paths from this free set's encoding)
+        eopt = spec.encoder_options(inst, tr, fi, free) if hasattr(spec, "encoder_options") else {}
         enc = Encoder(tr, free=() if free_all else free, angle_pins=angle_pins, free_all=free_all,
-                      max_terms=inst.get("max_terms", st.max_terms), abstract_big=inst.get("abstract_big", False))
+                      max_terms=eopt.get("max_terms", inst.get("max_terms", st.max_terms)),
+                      abstract_big=eopt.get("abstract_big", inst.get("abstract_big", False)))
         try:
             obs = spec.obligations(enc, inst, tr)
             pc = enc.path_condition()
@@ -617,7 +621,7 @@ def check_path(spec, inst, st, res, rng, tr, seeds, angle_pins, g):
                 elif rt == "unsat":
                     res.vacuous.append(dict(instance=inst["name"], obligation=ob.name, reason="wrong twin was proved: hypotheses unsatisfiable or goal degenerate"))
         # path flips
-        if inst.get("paths", 1) > 1:
+        if inst.get("paths", 1) > 1 and not eopt.get("no_flips"):
             new_seeds.extend(flip_decisions(spec, inst, st, res, enc, pc, seeds))
     return new_seeds
 
